@@ -376,7 +376,8 @@ func init() {
 				initial["auth-proxy"] = []string{"_front__auth:14415-14415", "_front__auth:14415-14416", "_front__auth:14415-14419"}[r.IntN(3)]
 			}
 			rc.World, rc.Ops = GenerateRun(seed, GenOptions{Sparse: r.IntN(2) == 0, IngressKeys: []string{"auth-url", "oauth", "auth-external-placement", "balance-algorithm"},
-				GlobalKeys: []string{"auth-proxy", "external-has-lua", "timeout-client"}, InitialGlobal: initial, AnnChance: 2,
+				ValueOverrides: map[string][]string{"auth-external-placement": {"frontend", "backend", "backend", "Backend", "front", ""}},
+				GlobalKeys:     []string{"auth-proxy", "external-has-lua", "timeout-client"}, InitialGlobal: initial, AnnChance: 2,
 				Hosts: []string{"app.local", "api.local", "web.local"}, MinOps: mn, MaxOps: mx, QuiesceEvery: pickInt(r, 2, 4), KeysPerRun: 4, W: w, NoForeignClass: true})
 			return rc
 		}})
